@@ -264,6 +264,10 @@ def _fixed_den_cases():
         # operand-level $not consumes exactly one operand
         ({"pattern": [{"mov": [{"$not": ["rax"]}, "rbx"]}]}, R(("mov", ["%rbx", "%rax"]), ("mov", ["%rcx", "%rbx"]))),
         ({"pattern": [{"mov": ["rsp", {"$not": ["eax"]}, "rbp"]}]}, R(("mov", ["%rsp", "%rbp"]))),
+        # addresses that are not increasing (sections of an object file restart at 0): consecutive means consecutive IN THE LISTING
+        ({"pattern": ["mov", "xor"]}, [("0", "push", ["%rbp"]), ("1", "mov", ["%rsp", "%rbp"]), ("0", "xor", ["%eax", "%eax"]), ("2", "ret", [""])]),
+        ({"pattern": ["push", "xor"]}, [("0", "push", ["%rbp"]), ("1", "mov", ["%rsp", "%rbp"]), ("0", "xor", ["%eax", "%eax"]), ("2", "ret", [""])]),
+        ({"pattern": ["ret", "push"]}, [("10", "push", ["%rbp"]), ("11", "ret", [""]), ("0", "push", ["%rbx"]), ("1", "ret", [""])]),
         # `times` written inside the body of a $deref operand
         ({"pattern": [{"lea": [{"$deref": {"main_reg": "rax", "times": 1}}, "rbx"]}]}, R(("lea", ["[%rax]", "%rbx"]))),
         ({"pattern": [{"lea": [{"$deref": {"main_reg": "rax", "times": {"min": 0, "max": 1}}}, "rbx"]}]}, R(("lea", ["[%rax]", "%rbx"]), ("lea", ["%rbx"]))),
@@ -579,6 +583,17 @@ def undefined_macro_sweep() -> Tuple[Dict[str, Any], List[Dict[str, Any]]]:
         rule2 = {"macros": body_defs2, "pattern": ["@user"]}
         jobs.append({"kind": "compile", "rule": rule2})
         ids.append(("defined-in-body", order, "rule", rule2, []))
+        # ... and the rule ALSO uses that macro directly (the direct use is expanded; the one that arrives with the body is a
+        # second, separate reference: expanded or reported as well), as a pattern item and as an operand
+        rule3 = {"macros": body_defs2, "pattern": ["@user", "@m"]}
+        jobs.append({"kind": "compile", "rule": rule3})
+        ids.append(("defined-in-body", order + ":direct-use-too", "rule", rule3, []))
+        body_defs4 = [{"name": "@user", "pattern": [{"push": ["@r"]}]}, {"name": "@r", "pattern": "%r11"}]
+        if order == "user-last":
+            body_defs4.reverse()
+        rule4 = {"macros": body_defs4, "pattern": [{"mov": ["%rax", "@r"]}, "@user"]}
+        jobs.append({"kind": "compile", "rule": rule4})
+        ids.append(("defined-in-body", order + ":direct-operand-use-too", "rule", rule4, []))
     # every case once more with the jasm logger at DEBUG level (`--debug`)
     n0 = len(jobs)
     for k in range(n0):
@@ -1242,7 +1257,8 @@ def run(prop: str, tier: str, seed: int, force: bool = False) -> Tuple[Dict[str,
             # the configuration in effect (flags, sections, range) must be this rule's: a refuted obligation about the
             # singleton is looked for as a concrete history of operations
             plan.append("history")
-        if prop in ("C08", "C09", "C10", "C16", "C06") or (force and prop == "C07"):
+        if prop in ("C08", "C09", "C10", "C16", "C06") or (force and prop in DEN_PROPS):
+            # a refuted / undecided obligation about the list handed to the consumer (order, membership) is looked for through the real parser
             plan.append("parser")
         if prop == "C18" or (force and prop in ("C07", "C08", "C09", "C10", "C16")):
             # which instructions enter the stream also depends on the observers installed by valid_addr_range
